@@ -150,10 +150,66 @@ impl Ctx {
 }
 
 pub fn norm_text(s: &str, root_text: &str) -> String {
+    // (a path spelled from the base `//` begins with two separators; it is the same path)
+    let s = if s.starts_with("//") && s[1..].starts_with(root_text) { &s[1..] } else { s };
     match s.strip_prefix(root_text) {
-        Some(rest) if rest.is_empty() || rest.starts_with('/') => format!("{}{}", R, rest),
-        _ => s.to_string(),
+        Some(rest) if rest.is_empty() || rest.starts_with('/') => return format!("{}{}", R, rest),
+        _ => {},
     }
+    // Walks from a base above the world spell directories above the world root (`$R^k`: k levels
+    // up, the root of the file system being `$R^n` followed by its separators) and relative
+    // segments that begin with the last components of the world root's own path (`$R~k`). Both
+    // contain process-specific names (the scratch directory), so they are normalised too.
+    let comps: Vec<&str> = root_text.split('/').filter(|c| !c.is_empty()).collect();
+    let n = comps.len();
+    if s.starts_with('/') {
+        let trimmed = s.trim_end_matches('/');
+        let tail = &s[trimmed.len()..];
+        let acomps: Vec<&str> = trimmed.split('/').filter(|c| !c.is_empty()).collect();
+        let clean = trimmed.is_empty() || format!("/{}", acomps.join("/")) == trimmed;
+        if clean && acomps.len() < n && comps[..acomps.len()] == acomps[..] {
+            return format!("{}^{}{}", R, n - acomps.len(), tail);
+        }
+    }
+    else {
+        for k in (1..=n).rev() {
+            let t = comps[n - k..].join("/");
+            if let Some(rest) = s.strip_prefix(t.as_str()) {
+                if rest.is_empty() || rest.starts_with('/') {
+                    return format!("{}~{}{}", R, k, rest);
+                }
+            }
+        }
+    }
+    s.to_string()
+}
+
+/// Inverse of `norm_text`.
+pub fn denorm_text(text: &str, root_text: &str) -> String {
+    let Some(rest) = text.strip_prefix(R)
+    else {
+        return text.to_string();
+    };
+    let comps: Vec<&str> = root_text.split('/').filter(|c| !c.is_empty()).collect();
+    let n = comps.len();
+    let number = |t: &str| -> Option<(usize, usize)> {
+        let d = t.chars().take_while(|c| c.is_ascii_digit()).count();
+        t[..d].parse::<usize>().ok().map(|k| (k, d))
+    };
+    if let Some(t) = rest.strip_prefix('^') {
+        if let Some((k, d)) = number(t) {
+            let keep = n.saturating_sub(k);
+            let head = if keep == 0 { String::new() } else { format!("/{}", comps[..keep].join("/")) };
+            return format!("{}{}", head, &t[d..]);
+        }
+    }
+    if let Some(t) = rest.strip_prefix('~') {
+        if let Some((k, d)) = number(t) {
+            let k = k.min(n);
+            return format!("{}{}", comps[n - k..].join("/"), &t[d..]);
+        }
+    }
+    format!("{}{}", root_text, rest)
 }
 
 /// Lexical mapping of a path as spelled by the walk (absolute `$R/...` or relative to `cwd`) to a
@@ -161,6 +217,10 @@ pub fn norm_text(s: &str, root_text: &str) -> String {
 pub fn to_world(text: &str, cwd: &str) -> Option<String> {
     let mut comps: Vec<String> = Vec::new();
     let rest = if let Some(rest) = text.strip_prefix(R) {
+        if rest.starts_with('^') || rest.starts_with('~') {
+            // above the world, or a relative segment spelled from above it
+            return None;
+        }
         rest
     }
     else if text.starts_with('/') {
@@ -554,6 +614,17 @@ pub fn base_text(w: &Walker, cwd: &str, root_text: &str) -> String {
         }
     };
     match w.spelling {
+        Spelling::Above { levels, slash } => {
+            let comps: Vec<&str> = root_text.split('/').filter(|c| !c.is_empty()).collect();
+            let k = (levels as usize).min(comps.len());
+            let head = comps[..comps.len() - k].join("/");
+            match (head.is_empty(), slash) {
+                (true, false) => "/".to_string(),
+                (true, true) => "//".to_string(),
+                (false, false) => format!("/{}", head),
+                (false, true) => format!("/{}/", head),
+            }
+        },
         Spelling::Odd { absolute: true, kind } => odd(abs(), kind, root_text.split('/').count()),
         Spelling::Odd { absolute: false, kind } => odd(rel(), kind, 0),
         Spelling::Absolute => abs(),
@@ -575,15 +646,23 @@ pub fn glob_text(expr: &str, rooted: bool, root_text: &str) -> String {
             format!("{}/{}", esc, expr)
         }
     }
+    else if let Some((k, rest)) = up_prefix(expr) {
+        // the last k components of the world root, as a literal prefix (for a base above the world)
+        let lead: Vec<String> = last_components(root_text, k).iter().map(|c| wax::escape(c).into_owned()).collect();
+        let lead = lead.join("/");
+        if rest.is_empty() { lead } else { format!("{}/{}", lead, rest) }
+    }
     else {
         expr.to_string()
     }
 }
 
-/// Component count of the world root's absolute path if the walker's glob is rooted, else 0.
+/// Component count of the world root's absolute path if the walker's glob is rooted (for a base
+/// above the world: the number of components between that base and the world root), else 0.
 pub fn depth_shift(w: &Walker, root_text: &str) -> usize {
-    match w.source {
+    match &w.source {
         Source::Glob { rooted: true, .. } => Path::new(root_text).components().count(),
+        Source::Glob { expr, rooted: false } => up_prefix(expr).map_or(0, |(k, _)| last_components(root_text, k).len()),
         _ => 0,
     }
 }
@@ -721,6 +800,21 @@ pub fn build_walker(
         };
     }
     let (arg, _) = beh_arg(w.form, beh);
+    // safety net: a base above the world is only ever walked with a glob whose literal prefix leads
+    // straight back into the world (`$UP<k>` for exactly the k levels the base lies above it)
+    {
+        let up = match &w.source {
+            Source::Glob { expr, rooted: false } => up_prefix(expr).map(|(k, _)| k),
+            _ => None,
+        };
+        match (&w.spelling, up) {
+            (Spelling::Above { levels, .. }, Some(k)) if k == *levels as usize && w.base.is_empty() => {},
+            (Spelling::Above { .. }, _) | (_, Some(_)) => {
+                return Err(format!("base above the world without the matching literal prefix ({:?}, {:?})", w.spelling, w.source));
+            },
+            _ => {},
+        }
+    }
     let res = match &w.source {
         Source::Path => start!(arg, base.as_path().walk(), |b| base.as_path().walk_with_behavior(b)),
         Source::Glob { expr, rooted } => {
